@@ -23,6 +23,9 @@ def main():
         pid = meta.get('checked_by') or meta['property']
         if only and meta['property'] not in only:
             continue
+        if meta.get('obsolete'):
+            print('%s OBSOLETE (%s)' % (name, (meta.get('disposition') or '')[:100]))
+            continue
         sc = '/dev/shm/reseed-%s-%d' % (name, os.getpid())
         shutil.rmtree(sc, ignore_errors=True)
         os.makedirs(sc)
